@@ -257,6 +257,29 @@ def _documents(doc_i, kind, enc_i):
 
 
 # ---------------------------------------------------------------- web processor: every per-URL error kind stays per-URL
+_LM = ['Thu, 01 Jan 2015 00:00:00 GMT', 'tomorrow-ish', '', ' ', 'Thu, 01 Jan 99999 00:00:00 GMT', 'Thu, 32 Foo 2015 25:61:61 GMT', '0', '-1',
+       'Thu, 01 Jan 0000 00:00:00 GMT', 'Thu, 01 Jan 1000 00:00:00 GMT', '01 Jan 15', 'Thursday, 01-Jan-15 00:00:00 GMT', 'Thu Jan  1 00:00:00 2015',
+       '\x00', 'Thu, 01 Jan 2015 00:00:00 +9999', '9999999999999999999999', 'Thu, 01 Jan 2015', 'Jan', ',', 'Thu, 01 Jan 292277026596 00:00:00 GMT']
+
+
+def _last_modified(tok_i):
+    """The server's Last-Modified value applied to the saved file (default --use-server-timestamps)."""
+    import wpull.writer as W
+    from wpull.protocol.http.request import Response
+    calls = []
+    real_os = W.os
+    W.os = types.SimpleNamespace(utime=lambda name, times: calls.append((name, times)), path=real_os.path)
+    try:
+        resp = Response(200, 'OK')
+        resp.fields['Last-Modified'] = pick(_LM, tok_i)
+        with nosym():
+            W.BaseFileWriterSession.set_timestamp('file.bin', resp)
+    finally:
+        W.os = real_os
+    hit('set' if calls else 'ignored')
+    return True
+
+
 def _web_processor_faults(e0, e1, stage):
     """stage 0: the first two requests of a visit answer a0, a1.  stage 1: robots.txt checking is on - the first two requests belong
     to the robots.txt fetch (a cross-origin redirect of robots.txt included), later ones answer 200."""
@@ -351,6 +374,10 @@ HARNESSES = [
              'wpull/scraper/base.py:DemuxDocumentScraper.scrape_info', 'wpull/document/util.py:detect_response_encoding'],
       doc='18 hostile robots.txt / CSS / JavaScript documents x 12 declared charsets (incl. utf-16, an unknown codec and non-text codecs such as hex / zlib / base64) through robots.txt '
           'loading, CSSScraper, JavaScriptScraper and the demultiplexing scraper: success or a per-URL error kind'),
+    H('last_modified', '_last_modified', 'tok_i: int', pre=['0 <= tok_i < %d' % len(_LM)], timeout={'quick': 120, 'thorough': 300},
+      samples=[(0,), (1,)], need=['set', 'ignored'], funcs=['wpull/writer.py:BaseFileWriterSession.set_timestamp'],
+      doc='20 Last-Modified values (garbage, empty, impossible fields, years 0 / 1000 / 99999 / beyond time_t, obsolete formats, NUL) '
+          'applied to the saved file: the timestamp is set or ignored, nothing is raised'),
     H('web_processor_faults', '_web_processor_faults', 'e0: int, e1: int, stage: int', pre=['0 <= e0 <= 15 and 0 <= e1 <= 15'],
       parts=[{'tag': 'plain', 'fix': {'stage': '0'}}] + [{'tag': 'robots_%d' % lo, 'fix': {'stage': '1'}, 'pre': ['%d <= e0 <= %d' % (lo, lo + 1)]} for lo in range(0, 16, 2)],
       timeout={'quick': 250, 'thorough': 600}, samples=[(0, 0, 0), (7, 6, 0), (9, 1, 0), (10, 6, 1), (11, 6, 1)], need=['processed'],
